@@ -291,6 +291,7 @@ def callee_is(t, *names):
             continue
         v = strip_generics(v)
         for nm in names:
+            nm = strip_generics(nm)
             if v == nm or v.endswith('::' + nm):
                 return True
     return False
